@@ -1,3 +1,5 @@
+//go:build mcbuild
+
 // C17: xsync.Group on the virtual clock. Engine E2.
 package main
 
